@@ -446,13 +446,44 @@ def r198(prog, chk):
     uses = [c for c in A.body_nodes(gi.node) if isinstance(c, ast.Call) and A.callee_name(c) in ("instance_at", "_generate_instance_info", "generate_glyph_instance")]
     oku = len(uses) == 3 and all(nn in [T(a) for a in c.args] for c in uses)
     chk.ob("R19.8", f"{gi.short}|normalised once; kerning, info and every glyph use that normalised location", ok and oku, where(gi), detail=f"{nn} used at {len(uses)} sites", message=f"{gi.short}: kerning / info / glyphs are not all instantiated at the same normalised location")
+    # master locations (collect_*_masters) and instance locations (Instantiator.normalize) must be normalised by one and the
+    # same function against the axis bounds, with nothing applied on top: the instance-on-a-master lookup compares the two
     nm = ix.get_method(I, "normalize", own=True)
-    ok = T(A.returns_of(nm.node)[0].value) == f"varLib.models.normalizeLocation({nm.params()[1]}, self.axis_bounds)"
-    chk.ob("R19.8", f"{nm.short}|varLib normalisation against the axis bounds", ok, where(nm), detail=T(A.returns_of(nm.node)[0].value), nontrivial=False, message="Instantiator.normalize changed")
-    chk.minimum("R19.8", 3)
+    mod = nm.module
+    sites = []
+    for fi in [f for f in ix.functions.values() if f.module is mod]:
+        for c in A.body_nodes(fi.node):
+            if isinstance(c, ast.Call) and len(c.args) == 2 and not c.keywords and T(c.args[1]).split(".")[-1] == "axis_bounds":
+                d = ix.resolve_expr(fi.module, c.func, prog._class_ctx(fi)) or T(c.func)
+                if not d.startswith("ufo2ft."):  # the package's own collectors only pass the bounds on
+                    sites.append((fi, c, d))
+    need(len(sites) >= 4, f"cannot interpret {mod.name}: location normalisation sites ({len(sites)})")
+    names = sorted({d for _, _, d in sites})
+    chk.ob("R19.8", "master and instance locations are normalised by one function", len(names) == 1, where(nm), detail=f"{len(sites)} sites: {names}",
+           message=f"locations are normalised by different functions ({names}): an instance on a master no longer finds that master")
+    rets = A.returns_of(nm.node)
+    mine = [c for fi, c, d in sites if fi is nm]
+    ok = len(rets) == 1 and len(mine) == 1 and rets[0].value is mine[0] and T(mine[0].args[0]) == nm.params()[1] and T(mine[0].args[1]) == "self.axis_bounds"
+    chk.ob("R19.8", f"{nm.short}|returns that normalisation of its argument against self.axis_bounds, nothing applied on top", ok, where(nm), detail=T(rets[0].value, 90) if rets else "",
+           message=f"{nm.short} does not return the plain normalisation the master locations were stored under (`{T(rets[0].value, 70) if rets else ''}`): the keys of "
+                   f"Variator.location_to_master are computed differently, so an instance on a master is interpolated instead of copied")
+    for fi, c, d in sites:
+        if fi is nm:
+            continue
+        par = ix.parent(c)
+        ok = isinstance(par, ast.Assign) and par.value is c
+        chk.ob("R19.8", f"{fi.short}|{A.keytext(fi.node, c)}|master location stored as normalised, nothing applied on top", ok, where(fi, c), detail=T(par, 90),
+               message=f"{fi.short}: the normalised master location is post-processed (`{T(par, 70)}`) while the instance location is not")
+    chk.minimum("R19.8", 7)
 
 
 MUTANTS = [
+    M("instance locations quantised to F2Dot14 while master locations are not (seeded C19i)", "ufo2ft/instantiator.py", "Instantiator.normalize",
+      "return varLib.models.normalizeLocation(location, self.axis_bounds)",
+      "return {k: round(v * 16384) / 16384 for k, v in varLib.models.normalizeLocation(location, self.axis_bounds).items()}", rule="R19.8"),
+    M("kerning masters keyed by a post-processed location", "ufo2ft/instantiator.py", "collect_kerning_masters",
+      "normalized_location = varLib.models.normalizeLocation(source.location, axis_bounds)",
+      "normalized_location = dict(sorted(varLib.models.normalizeLocation(source.location, axis_bounds).items())[:1])", rule="R19.8"),
     M("instances that sit on a master are not rounded (seeded C19h)", "ufo2ft/instantiator.py", "Instantiator.generate_glyph_instance",
       "if self.round_geometry:\n    glyph_instance = glyph_instance.round()", "if self.round_geometry and location_to_key(normalized_location) not in glyph_mutator.location_to_master:\n    glyph_instance = glyph_instance.round()", rule="R19.7"),
     M("master handed out without copying", "ufo2ft/instantiator.py", "Variator.instance_at",
